@@ -24,5 +24,23 @@ claim("C07",
   "Not decided: that the pid still designates the process (kernel pid semantics), pid-namespace translation. Trusted: go/ssa; kernel read/write semantics on a socketpair.",
   "DESIGN.md §4 C07")
 
-for pid in ["C01","C02","C03","C05","C08","C10","C11","C12","C13","C14","C15","C16","C17","C18","C19","C20"]:
+claim("C01",
+  "table extraction by conditional constant propagation (action map), composite-literal / store wiring rules, fresh-result (ownership) rule, guarded-by rule on map insertions",
+  "Decides the go-sandbox side of the filter pipeline (necessary conditions): Build wires allow→ALLOW, trace→TRACE and default→action-map(Default) into the dependency's Policy and returns export(Assemble()); the action map is complete and fails closed to KILL_PROCESS for every value other than allow/errno/trace after the 16-bit mask; the export copies Op/Jt/Jf/K of every instruction into a fresh slice; SockFprog hands over len and &filter[0]; runprog gives trace precedence over allow. This is the part whose truth is in the shape of this repository's code.",
+  "NOT decided, and not decidable by static analysis within reach: the semantics of the cBPF program generated at run time by github.com/elastic/go-seccomp-bpf (ALLOW/TRACE/default per syscall number for all 2^32 numbers × architecture tags, arch check, x32 guard, far-jump splitting). The check claims only the wiring clauses, not that behaviour.",
+  "DESIGN.md §4 C01")
+
+claim("C05",
+  "E1 guard formulas for the raw in-child mount sequence; flattened interprocedural call-order and must-pass-through rules for the container copy; sibling-constant comparison; constant propagation for builder flag sets",
+  "Decides for all configurations that both implementations of the mount sequence follow the reference skeleton (private /, tmpfs root, chdir, every configured mount with read-only remount exactly under bind+rdonly, pivot_root, lazy detach and removal of the old root, symlinks and mask paths after the pivot, read-only remount of / with BIND|REMOUNT|RDONLY|NOSUID on every success path), with every step's failure aborting, equal retention mask and final flags in both copies, and the builder's flag sets (bind, tmpfs, proc, read-only polarity).",
+  "Not decided: that the kernel enforces the flags; propagation semantics; other escape paths (open descriptors are C06); submounts of recursive binds.",
+  "DESIGN.md §4 C05")
+
+claim("C08",
+  "table extraction over SSA stores with control-dependence guards (rlimit table), E1 loop/failure-edge rules, conditional constant propagation for usage verdicts, ordered must-occur rule for the collector goroutine",
+  "Decides: the complete record→RLIMIT_* table with soft/hard provenance and CPU hard clamp; prlimit64 per entry with in-loop indexed failure edge before the security steps; usage over bound ⇒ TLE/MLE for every wait status with both measurements, strict comparison, identical Maxrss factor; SIGXCPU/SIGXFSZ stops ⇒ TLE/OLE; the output collector's CopyN(n) < close(done) < drain < Close order with n = max+1.",
+  "Not decided: kernel enforcement of limits, CPU accounting accuracy, 'never blocks the writer' beyond the drain being unconditionally reached.",
+  "DESIGN.md §4 C08")
+
+for pid in ["C02","C03","C10","C11","C12","C13","C14","C15","C16","C17","C18","C19","C20"]:
     na(pid, "check under construction in this session (design in DESIGN.md section 4); not yet claimed")
